@@ -45,7 +45,7 @@ func init() {
 		ID:      "C12",
 		Modules: []string{"v2"},
 		Explanation: "Static rules on the two corpus loaders: (R12.1) every constant-position access to the path segments in LoadLicenses is covered by a dominating length guard; (R12.2) taint: the raw directory argument reaches only path-aware functions (filepath.Walk/Rel/Clean/Abs/Join), never string arithmetic, so the result cannot depend on how the directory is spelled; " +
-			"(R12.3) a path is accepted by the walk exactly under the guard strings.HasSuffix(path, \"txt\"); (R12.4) every embedded asset has exactly three path components and ends in txt, both loaders pass (component 0, 1, 2, bytes) to AddContent in that order, and DefaultClassifier returns a classifier that is fresh on every call. " +
+			"(R12.3) a path is accepted by the walk exactly under the guard strings.HasSuffix(path, \"txt\"); (R12.5) the walk callback returns nil on every path (a non-nil result aborts the walk or prunes a directory); (R12.6) the callback touches its FileInfo argument only where err == nil (it is nil otherwise); (R12.7) the corpus map is assigned only by the constructor, so loading never discards documents; (R12.4) every embedded asset has exactly three path components and ends in txt, both loaders pass (component 0, 1, 2, bytes) to AddContent in that order, and DefaultClassifier returns a classifier that is fresh on every call. " +
 			"Necessary conditions of the equivalence for all trees and spellings; equality of the resulting Match behaviour additionally rests on C04.",
 		Run: runC12,
 	})
@@ -78,6 +78,12 @@ func runC12(c *Ctx) {
 
 	// R12.3
 	checkSuffixFilter(c, p, fns)
+
+	// R12.5 / R12.6 the walk callback
+	checkWalkCallback(c, p, fns)
+
+	// R12.7 the corpus map is assigned only by the constructor
+	checkDocsSingleWriter(c, p)
 
 	// R12.4
 	ok, why := assetTreeShape(c, p)
@@ -338,5 +344,93 @@ func checkAddContentArgs(c *Ctx, p *core.Prog, fn *ssa.Function, what string) {
 			}
 		}
 		c.R.Check(ok, "R12.4", core.ShortFn(fn)+": AddContent receives path components 0, 1, 2 in order", p.Pos(call.Pos()), why, why)
+	}
+}
+
+// checkWalkCallback: R12.5 and R12.6.
+func checkWalkCallback(c *Ctx, p *core.Prog, fns []*ssa.Function) {
+	n := 0
+	for _, f := range fns {
+		if f.Parent() == nil || f.Signature.Params().Len() != 3 || f.Signature.Results().Len() != 1 {
+			continue
+		}
+		// filepath.WalkFunc / fs.WalkDirFunc: (path string, info, err error) error
+		if !isString(f.Signature.Params().At(0).Type()) {
+			continue
+		}
+		n++
+		okNil := true
+		for _, b := range f.Blocks {
+			if ret, ok := b.Instrs[len(b.Instrs)-1].(*ssa.Return); ok {
+				if cst, isC := ret.Results[0].(*ssa.Const); !isC || cst.Value != nil {
+					okNil = false
+					c.R.Fail("R12.5", core.ShortFn(f)+": the walk callback returns nil on every path", p.Pos(ret.Pos()), "the callback can return "+ret.Results[0].String()+": a non-nil result aborts the walk, and filepath.SkipDir returned for a file skips the rest of its directory, so files that should be loaded are silently dropped")
+				}
+			}
+		}
+		if okNil {
+			c.R.OK("R12.5", core.ShortFn(f)+": the walk callback returns nil on every path", p.Pos(f.Pos()), "every return is the nil error")
+		}
+		// R12.6
+		info, errP := f.Params[1], f.Params[2]
+		okInfo := true
+		if refs := info.Referrers(); refs != nil {
+			for _, r := range *refs {
+				if _, isDbg := r.(*ssa.DebugRef); isDbg {
+					continue
+				}
+				guarded := false
+				for _, fct := range core.FactsAtInstr(r) {
+					cmp, ok := fct.AsCmp()
+					if !ok {
+						continue
+					}
+					isNil := func(v ssa.Value) bool { cst, ok := v.(*ssa.Const); return ok && cst.Value == nil }
+					if cmp.Op == token.EQL && ((cmp.X == ssa.Value(errP) && isNil(cmp.Y)) || (cmp.Y == ssa.Value(errP) && isNil(cmp.X))) {
+						guarded = true
+					}
+				}
+				if !guarded {
+					okInfo = false
+					c.R.Fail("R12.6", core.ShortFn(f)+": the walk callback uses its FileInfo only where err == nil", p.Pos(r.Pos()), "filepath.Walk passes a nil FileInfo together with a non-nil error (unreadable or vanished entry): using it before the error test panics")
+				}
+			}
+		}
+		if okInfo {
+			c.R.OK("R12.6", core.ShortFn(f)+": the walk callback uses its FileInfo only where err == nil", p.Pos(f.Pos()), "no unguarded use")
+		}
+	}
+	c.R.RequireMin("R12.5", "walk callbacks in LoadLicenses", n, 1)
+}
+
+// checkDocsSingleWriter: R12.7.
+func checkDocsSingleWriter(c *Ctx, p *core.Prog) {
+	rl := rolesOf(p)
+	if !c.R.Anchor(rl.ok, "v2.Classifier corpus map field") {
+		return
+	}
+	nc := p.Func(v2pkg, "NewClassifier")
+	bad := 0
+	for _, fn := range v2Funcs(p) {
+		for _, b := range fn.Blocks {
+			for _, in := range b.Instrs {
+				st, ok := in.(*ssa.Store)
+				if !ok {
+					continue
+				}
+				fa, ok := st.Addr.(*ssa.FieldAddr)
+				if !ok || core.FieldName(fa) != rl.docs || !strings.HasSuffix(core.TypeName(fa.X.Type()), "/v2.Classifier") {
+					continue
+				}
+				if fn == nc {
+					continue
+				}
+				bad++
+				c.R.Fail("R12.7", core.ShortFn(fn)+": the corpus map of the classifier is replaced", p.Pos(st.Pos()), "Classifier."+rl.docs+" is assigned outside the constructor: documents added earlier (AddContent, an earlier LoadLicenses) are discarded, so the classifier is no longer equivalent to one built by AddContent per file")
+			}
+		}
+	}
+	if bad == 0 {
+		c.R.OK("R12.7", "the corpus map is assigned only by NewClassifier", "v2/classifier.go", "no other store to Classifier."+rl.docs)
 	}
 }
